@@ -1,5 +1,7 @@
 """C39 Boundary condition objects partition the boundary faces (scalar and vectorial, constructor + set_bc)."""
 import functools
+import os
+import tempfile
 import warnings
 
 import numpy as np
@@ -70,7 +72,13 @@ def _base_grids(spec_key):
     if kind == "lib":
         name, gridtype, cs, idx = spec_key[1:]
         fn = getattr(pp.mdg_library, name)
-        mdg, _ = fn(gridtype, {"cell_size": cs}, list(idx))
+        cwd = os.getcwd()
+        with tempfile.TemporaryDirectory() as tmp:  # gmsh writes its .geo/.msh files into the working directory
+            os.chdir(tmp)
+            try:
+                mdg, _ = fn(gridtype, {"cell_size": cs}, list(idx))
+            finally:
+                os.chdir(cwd)
         return list(mdg.subdomains())
     raise ValueError(kind)
 
